@@ -29,6 +29,18 @@ DISPATCH = [
 ]
 
 
+def te10_rule(chk, pm, rule: str, kind: str, what: str):
+    """RFC 9112 6.1: an HTTP/1.0 message with Transfer-Encoding has faulty framing; the last word on `close` in parse_message() is True for it.
+    One rule for both parse_message() implementations (request: C01, response: C06)."""
+    closes = [a for a in ast.walk(pm.node) if isinstance(a, ast.Assign) and norm.raw(a) == "close = True"]
+    te10 = [a for a in closes if any("TRANSFER_ENCODING" in l.text and l.pos for c in PC.pc(a, raw=True) for l in c) and any("HttpVersion1" in l.text for c in PC.pc(a, raw=True) for l in c)]
+    rets = [r for r in ast.walk(pm.node) if isinstance(r, ast.Return)]
+    if te10 and rets and all(a.lineno < rets[-1].lineno for a in te10) and not any(isinstance(x, ast.Assign) and norm.raw(x.targets[0]) == "close" and x.lineno > te10[-1].lineno for x in ast.walk(pm.node)):
+        chk.ok(rule, te10[0], f"an HTTP/1.0 {kind} carrying Transfer-Encoding closes the connection, whatever its Connection header says")
+    else:
+        chk.violation(rule, pm, "close", "if version_o < HttpVersion11 and hdrs.TRANSFER_ENCODING in headers: close = True", what)
+
+
 def http_error_classes(repo) -> set[str]:
     m = repo.module("aiohttp/http_exceptions.py")
     out = set()
@@ -543,14 +555,8 @@ def run(chk):
     # ------------------------------------------------------------------ C01.te10
     # RFC 9112 6.1: an HTTP/1.0 request with Transfer-Encoding has faulty framing (a 1.0 hop may have framed it by other rules): whatever the
     # Connection header says, nothing may follow it on the connection
-    closes = [a for a in ast.walk(pm.node) if isinstance(a, ast.Assign) and norm.raw(a) == "close = True"]
-    te10 = [a for a in closes if any("TRANSFER_ENCODING" in l.text and l.pos for c in PC.pc(a, raw=True) for l in c) and any("HttpVersion1" in l.text for c in PC.pc(a, raw=True) for l in c)]
-    rets = [r for r in ast.walk(pm.node) if isinstance(r, ast.Return)]
-    if te10 and rets and all(a.lineno < rets[-1].lineno for a in te10) and not any(isinstance(x, ast.Assign) and norm.raw(x.targets[0]) == "close" and x.lineno > te10[-1].lineno for x in ast.walk(pm.node)):
-        chk.ok("C01.te10", te10[0], "an HTTP/1.0 request carrying Transfer-Encoding closes the connection, whatever its Connection header says")
-    else:
-        chk.violation("C01.te10", pm, "close", "if version_o < HttpVersion11 and hdrs.TRANSFER_ENCODING in headers: close = True",
-                      "an HTTP/1.0 request with `Transfer-Encoding: chunked` and `Connection: keep-alive` is answered `Connection: keep-alive` and the bytes after it are dispatched as the next request: a 1.0 intermediary that framed the message by Content-Length / close disagrees about where it ends (request smuggling)")
+    te10_rule(chk, pm, "C01.te10", "request",
+              "an HTTP/1.0 request with `Transfer-Encoding: chunked` and `Connection: keep-alive` is answered `Connection: keep-alive` and the bytes after it are dispatched as the next request: a 1.0 intermediary that framed the message by Content-Length / close disagrees about where it ends (request smuggling)")
     # ------------------------------------------------------------------ C01.rej.host
     # what BaseRequest.url builds lazily from the Host header (URL.build(authority=...)) the parser validates eagerly: an invalid Host is the
     # client's error (400), not a ValueError in whatever handler or middleware first touches request.url (500)
